@@ -160,6 +160,25 @@ def generate(seed: int, tier: str) -> Dict[str, Any]:
             base["perf"] = {"enabled": True, "metrics": {"report_memory": r.chance(0.5)}}
             if r.chance(0.5):
                 base["perf"]["t1"] = {"cache": {"max_entries": 4, "max_bytes": 10000}}
+    # the OTHER optional features may be switched on in the base (both arms): a closed gate must be inert also next to an
+    # open one (a value in the closed subtree read by the open feature is exactly such an interaction)
+    on = [g for g in ("graph", "hybrid", "quality", "scheduler", "reflection") if g not in gates and r.chance(0.3)]
+    if "hybrid" in on and "graph" in gates:
+        on.remove("hybrid")
+    if "graph" in on or "hybrid" in on:
+        if "graph" not in gates:
+            base["graph"] = {"enabled": True, "coactivation_threshold": 0.0, "observe_top_k": r.choice([3, 64]),
+                             "update": {"mode": "additive", "alpha": r.choice([0.3, 0.7])}, "merge": {"enabled": r.chance(0.5), "min_size": 2, "min_avg_w": 0.0}, "split": {"weak_edge_thresh": 0.0}}
+            base["t2"]["sim_threshold"] = -1.0
+    if "hybrid" in on:
+        base["t2"]["hybrid"] = {"enabled": True, "edge_threshold": 0.0, "lambda_graph": r.choice([0.25, 0.9])}
+    if "quality" in on:
+        base["t2"]["quality"] = r.choice([{"enabled": True, "lexical": {"enabled": True}, "fusion": {"enabled": True, "alpha_semantic": 0.5}},
+                                          {"enabled": True, "mmr": {"enabled": True, "lambda": 0.3, "k": 2}}])
+    if "scheduler" in on:
+        base["scheduler"] = {"enabled": True, "quantum_ms": 10**9, "budgets": {"wall_ms": 2 * 10**9, "t2_k": r.choice([1, 2, 64]), "t3_ops": r.choice([1, 3])}}
+    if "reflection" in on:
+        base.setdefault("t3", {})["allow_reflection"] = True
     jr = rng.stream("junk")
     junk: Dict[str, Any] = {}
     for g in gates:
